@@ -113,6 +113,15 @@ func (c *vfCore) RouteCallAlias(from gen.PID, to gen.Alias, options gen.MessageO
 func (c *vfCore) RouteTerminatePID(target gen.PID, reason error) error {
 	return c.rec(vfRoute{kind: "terminate-pid", toPID: target, reason: reason})
 }
+func (c *vfCore) RouteTerminateProcessID(target gen.ProcessID, reason error) error {
+	return c.rec(vfRoute{kind: "terminate-name", toName: target, reason: reason})
+}
+func (c *vfCore) RouteTerminateAlias(target gen.Alias, reason error) error {
+	return c.rec(vfRoute{kind: "terminate-alias", toAlias: target, reason: reason})
+}
+func (c *vfCore) RouteTerminateEvent(target gen.Event, reason error) error {
+	return c.rec(vfRoute{kind: "terminate-event", toName: gen.ProcessID{Name: target.Name, Node: target.Node}, reason: reason})
+}
 func (c *vfCore) RouteSpawn(node gen.Atom, name gen.Atom, options gen.ProcessOptionsExtra, source gen.Atom) (gen.PID, error) {
 	c.mu.Lock()
 	c.calls = append(c.calls, vfRoute{kind: "spawn", toName: gen.ProcessID{Name: name, Node: source}, message: options})
